@@ -112,6 +112,8 @@ type simNode struct {
 	panicked               bool
 	curWellFormed          bool   // the event in progress delivers a message the harness decoded completely
 	swallowed              string // a panic the worker's guard swallowed during it
+	duringCommit           func()  // runs once inside the next commit callback (the main loop acting meanwhile)
+	untracked              bool    // the node went through an interleaving the sequential model has no event for: monitors only from then on
 	aheadNV                []*aMsg // NEW_VIEWs delivered to this node for a height it had not reached yet
 }
 
@@ -150,6 +152,10 @@ type world struct {
 	failCommit    map[uint64][]uint64 // node -> heights
 	excl          map[uint64][]uint64
 	trace         []string           // human-readable schedule (for replay files)
+	splitSyncs    bool               // syncs may be split into the main loop's half and the worker's half with other events in between
+	pendingSync   map[uint64]*pendSync
+	forceSplit    bool
+	failSend      string             // message kind whose sends the transport reports as failed ("" = a pseudo-random fifth of all sends, "-" = none)
 	nilOK         bool               // lenient consumer: ValidateBlockProposal / ValidateBlockCommitment accept a missing block (monitors only, no model)
 	kf1           bool               // standalone PREPREPARE in view>0 stream enabled
 	kf1Adopted    bool               // some correct node adopted a standalone PREPREPARE in a view above 0 in this world
@@ -243,6 +249,11 @@ func (n *simNode) onCommit(ctx context.Context, block interfaces.Block, proofByt
 	copy(cp, proofBytes)
 	n.commits = append(n.commits, commitRec{ab.Height, aref.View, ab, cp})
 	w.onCommitMonitors(n, ab, aref, signers, cp)
+	if n.duringCommit != nil { // the main loop acts while the worker is inside the commit callback
+		f := n.duringCommit
+		n.duringCommit = nil
+		f()
+	}
 	for _, fh := range w.failCommit[n.id] {
 		if fh == ab.Height {
 			return errors.New("scripted commit failure")
@@ -310,7 +321,9 @@ func (n *simNode) apply(evCoq string, desc string, ev evInfo, f func()) {
 		f()
 	}()
 	w.trace = append(w.trace, fmt.Sprintf("node %d: %s", n.id, desc))
-	n.steps = append(n.steps, fmt.Sprintf("(%s, %s, %s)", evCoq, cList(n.outs), n.obs()))
+	if !n.untracked {
+		n.steps = append(n.steps, fmt.Sprintf("(%s, %s, %s)", evCoq, cList(n.outs), n.obs()))
+	}
 	st := n.vn.State()
 	n.hvs = append(n.hvs, [2]uint64{uint64(st.Height()), uint64(st.View())})
 	w.afterEvent(n, ev, bf, n.outs, n.curSent)
@@ -344,6 +357,12 @@ func (c *orderedComm) SendConsensusMessage(ctx context.Context, recipients []pri
 		if _, ok := w.byId[t]; ok {
 			w.pool = append(w.pool, pend{true, t, m, raw})
 		}
+	}
+	// the transport may report a failure although the message went out (or reached some of the recipients): what the
+	// node did by sending is done, nothing may be redone because of the error
+	if w.failSend == m.Kind || (w.failSend == "" && w.ord.Intn(5) == 0) {
+		w.rep.count("send-reported-as-failed:" + m.Kind)
+		return errors.New("transport: delivery not confirmed")
 	}
 	return nil
 }
@@ -394,8 +413,39 @@ func (w *world) sync(n *simNode, b *aBlock) {
 		}
 		w.syncBlocks[h] = b
 	}
+	w.flushSync(n)
+	if w.splitSyncs && (w.forceSplit || w.r.Intn(3) == 0) {
+		// the two loops: the main loop accepts the block now, the worker takes it from its channel some events later
+		var accepted bool
+		n.apply("ESyncMain "+b.coq(), fmt.Sprintf("main loop accepts a sync to block of height %d", h), evInfo{kind: "syncmain"}, func() { accepted = n.vn.SyncMainHalf(blk) })
+		w.rep.count("event:sync-main-half")
+		if accepted {
+			if w.pendingSync == nil {
+				w.pendingSync = map[uint64]*pendSync{}
+			}
+			w.pendingSync[n.id] = &pendSync{b, blk, h}
+		}
+		return
+	}
 	n.apply("ESync "+b.coq(), fmt.Sprintf("sync to block of height %d", h), evInfo{kind: "sync"}, func() { n.vn.Sync(blk, w.codec.syncProof(h)) })
 	w.rep.count("event:sync")
+}
+
+type pendSync struct {
+	b   *aBlock
+	blk interfaces.Block
+	h   uint64
+}
+
+// flushSync: the worker takes the block the main loop accepted earlier (if any) from its channel
+func (w *world) flushSync(n *simNode) {
+	ps := w.pendingSync[n.id]
+	if ps == nil {
+		return
+	}
+	delete(w.pendingSync, n.id)
+	n.apply("ESyncWorker "+ps.b.coq(), fmt.Sprintf("worker applies the sync to block of height %d", ps.h), evInfo{kind: "sync"}, func() { n.vn.SyncWorkerHalf(ps.blk, w.codec.syncProof(ps.h)) })
+	w.rep.count("event:sync-worker-half")
 }
 
 // ---- signatures bookkeeping (unforgeability discipline of the generators) ----
@@ -643,6 +693,18 @@ func runWorldModeX(cfg *runCfg, name string, kf1 bool, live bool) error {
 			w = directedWorld(r, rep, cfg.seed*100000+15, 3)
 			w.bareBlockVoteScript()
 			rep.count("world:directed-bare-block-vote-script")
+		} else if !kf1 && i == 16 {
+			w = directedWorld(r, rep, cfg.seed*100000+16)
+			w.outsiderLeaderScript()
+			rep.count("world:directed-outsider-leader-script")
+		} else if !kf1 && i == 17 {
+			w = directedWorld(r, rep, cfg.seed*100000+17)
+			w.failedBroadcastScript()
+			rep.count("world:directed-failed-broadcast-script")
+		} else if !kf1 && i == 18 {
+			w = directedWorld(r, rep, cfg.seed*100000+18)
+			w.splitSyncScript()
+			rep.count("world:directed-split-sync-script")
 		} else {
 			w.run()
 		}
